@@ -278,7 +278,7 @@ func main() {
 		// snapshot index has been advanced through RaftFlushC) and before the file is written
 		x := mv.MasterIdx
 		logf("store%d (master pt %d): park the flush after the memtable switch, then SIGKILL", x+1, mv.MasterPt)
-		_ = c.StoreCtl(x, "POST", "/verif/points", "flush-after-wal-switch=sleep(8000)")
+		_ = c.StoreCtl(x, "POST", "/verif/points", "flush-after-index-flush=sleep(8000)")
 		go c.StoreCtl(x, "POST", "/verif/flush", "")
 		time.Sleep(2 * time.Second)
 		c.Stores[x].Kill()
